@@ -117,7 +117,7 @@ func (c02Suite) Gen(rng *Rng, tier string, w *bufio.Writer, stats *Stats) {
 		qs   []string
 	}{{"suffix", focusedSuffixShapes()}, {"aggregate", focusedAggregateShapes()}, {"agg-traversal", focusedAggTraversalShapes()},
 		{"collect-membership", focusedCollectMembershipShapes()}, {"scope", focusedScopeShapes()}, {"path-predicate", focusedPathPredicateShapes()}, {"string-literal", focusedStringLiteralShapes()},
-		{"sort-keyword", focusedSortKeywordShapes()}, {"exact-range", focusedExactRangeShapes()}} {
+		{"sort-keyword", focusedSortKeywordShapes()}, {"exact-range", focusedExactRangeShapes()}, {"double-literal", focusedDoubleLiteralShapes()}, {"limit-boundary", focusedLimitBoundaryShapes()}, {"limit-tail-filter", focusedLimitTailFilterShapes()}} {
 		for _, q := range fam.qs {
 			emitFixedSeed("focused:"+fam.name, q)
 			stats.Inc("focused." + fam.name)
@@ -266,6 +266,15 @@ func (r *c02Runner) Step(t []string, raw string) string {
 	sqlU, ferr := translate.Translated(resU)
 	if ferr != nil {
 		return "err format-unoptimized"
+	}
+
+	if d := literalTie(resO.Statement, sqlO); d != "" {
+		r.stats.Inc("literal_tie_differs")
+		return "lit-differs optimised " + d + " sql=" + jsonQuote(sqlO)
+	}
+	if d := literalTie(resU.Statement, sqlU); d != "" {
+		r.stats.Inc("literal_tie_differs")
+		return "lit-differs unoptimised " + d + " sql=" + jsonQuote(sqlU)
 	}
 
 	var rules, lowerings []string
